@@ -20,7 +20,7 @@ import VaxisModel.Lemmas.C04Session
   resume             \t bytes    model = tokens of `resumeW`; verdict: mode state = after start-up
   close <cnv> <clv> <closed> <row> <col> <style> \t bytes   model = tokens of `closeW`; verdict: everything restored
   closesuspended     \t bytes|hang   Close after Suspend without Resume
-  closeby <how> <cnv> <clv> \t bytes    Close triggered by signal / panic: no model comparison, verdict restored
+  closeby <how> <cnv> <clv> <row> <col> <style> \t bytes    Close triggered by signal / panic: model = tokens of the signal arm / recover handler (from Gen), verdict restored
 -/
 namespace VaxisModel.Driver.C04
 open VaxisModel.Driver VaxisModel.Model.Lifecycle VaxisModel.Model.Render VaxisModel.Spec VaxisModel.Spec.ModeTerm
@@ -136,7 +136,7 @@ def step (s : St) (line : String) : St × String :=
       | none => (s, bad3)
   | ["bytes0"] =>
       match lex impl with
-      | some itoks => ({ s with t := ModeTerm.run s.t itoks }, "-\t-\t-")
+      | some itoks => ({ s with t := ModeTerm.run s.t itoks, w := { (startupW s.env) with wire := [] } }, "-\t-\t-")
       | none => (s, bad3)
   | ["bytes"] =>
       match lex impl with
@@ -192,13 +192,19 @@ def step (s : St) (line : String) : St × String :=
         let t := ModeTerm.run s.t itoks
         ({ s with w := { w with wire := [] }, t := t }, s!"{c.1}\t{c.2}\t{restoredVerdict s.t0 t}")
       | none => (s, bad3)
-  | ["closeby", _, _, _] =>
+  | ["closeby", how, cnv, clv, row, col, sty] =>
+      -- Close triggered on the input goroutine: model = the statement list of the kill-signal arm / of the
+      -- deferred recover handler, as regenerated from openTty (`Props.C04.signal_path_is_close`, `panic_path_is_close`)
       if impl = "hang" then (s, "-\thang\tFAIL Close triggered from the input goroutine never completes") else
       if impl = "nopanic" then (s, "-\t-\t-") else
       match lex impl with
       | some itoks =>
+        let cn : CursorState := { row := row.toInt?.getD 0, col := col.toInt?.getD 0, style := sty.toNat?.getD 0, visible := b cnv }
+        let path := if how = "panic" then VaxisModel.Gen.Modes.inputLoopRecover else VaxisModel.Gen.Modes.inputLoopSignalArm
+        let w := interp s.env 65 path { s.w with wire := [], cn := cn, cl := { cn with visible := b clv } }
+        let c := canon w.wire itoks
         let t := ModeTerm.run s.t itoks
-        ({ s with t := t }, s!"-\t-\t{restoredVerdict s.t0 t}")
+        ({ s with w := { w with wire := [] }, t := t }, s!"{c.1}\t{c.2}\t{restoredVerdict s.t0 t}")
       | none => (s, bad3)
   | _ => (s, bad3)
 
